@@ -15,7 +15,7 @@ C03 — Function patterns and symbol geometry are exact for all 40 versions.
                       only `Data`- and `Format`-typed cells (Proofs/Invariance.lean, Proofs/BuildSound.lean).
 -/
 import FastQr.Finite.TablesAlign
-import FastQr.Finite.TablesFormat
+import FastQr.Finite.TablesSize
 import FastQr.Proofs.TemplateSound
 import FastQr.Proofs.BuildSound
 
